@@ -111,7 +111,7 @@ func (s *scen) String() string {
 func main() {
 	c := vk.Init("C19")
 	c.Rule("scenario i: PRNG draws 0..5 outgoing handlers (for ALL types and for the types Y/0/3, registered before the session exists, before Session.Run or after it, each refusing on its k-th invocation or never), 0..5 incoming handlers (ALL, 1, V), up to 2 handlers registered while traffic is flowing (after their message types have been seen), 0..4 EventLogon handlers, an instrumented message store failing on the k-th Save or never, and 8..24 steps (application Send through the session, application Send through the handler with its own header and a sequence number used before or 0, lowering the outgoing counter and sending again, inbound TestRequest -> Heartbeat reply, inbound damaged message -> Reject, inbound application message); everything appends to one call log. Oracle per step: the handler chain equals the registration-order prefix up to the first refusal (ALL handlers before type handlers, the session's own Save at its registration position), a message is on Outgoing() iff the chain completed, it was saved successfully under its own 34 before, Send returned an error iff it was not transmitted, the bytes each outgoing handler could serialize equal the wire bytes; inbound ALL/type handler order likewise. Modifying-handler part: an outgoing handler stamps Text and SendingTime on the message and a handler behind it records what it is shown; the transmitted bytes equal what that last handler saw and carry the stamp. Batch part: SendBatch of 2..7 prepared messages with a failing save or a refusing ALL / type handler at a drawn position: that message is not transmitted, the call returns an error, everything transmitted was saved first. Removal part: the application registers 1..3 outgoing and 1..2 incoming handlers, hands one identifier back to RemoveOutgoingHandler / RemoveIncomingHandler, then 5 steps (sends and inbound TestRequests, optionally one failing save): whatever leaves was saved first, a failed save stops the message, the handlers that were not removed run in order (whether the removed one still runs is not judged). Queued part: buffered handler (4/8/16) whose Outgoing() is not read while 2..15 messages are sent (one message object re-used, optionally changed in place between sends, or fresh objects); after release every transmitted message equals what the outgoing ALL handler was shown and what the store holds under its number. distinct = scenario text; non-trivial = at least one refusal or failed save happened")
-	c.Assume("what happens to type handlers after an incoming ALL-handler refusal is not judged (the statement does not say); steps where that happened do not judge whether a reply was due")
+	c.Assume("an incoming all-types handler that returns false ends the all-types chain only: the message is still offered to the handlers of its own type (the statement says every inbound message is), so the session's own replies stay due")
 	n := c.Pick(4000, 60000)
 	vk.Parallel(n, runtime.NumCPU(), func(i int) {
 		r := c.Rand("c19", int64(i))
@@ -447,10 +447,9 @@ func runScenario(c *vk.Ctx, sc *scen, idx int) {
 				break
 			}
 		}
+		// the message is offered to the handlers of its own type whatever the all-types handlers returned ("every inbound
+		// message is offered to the all-types handlers and then to the handlers of its own type")
 		rest := ies[pos:]
-		if allRefused && len(rest) == 0 {
-			return
-		}
 		tp := 0
 		for _, hs := range expType {
 			if tp >= len(rest) || rest[tp].kind != "in-type" || rest[tp].id != hs.id {
@@ -514,11 +513,8 @@ func runScenario(c *vk.Ctx, sc *scen, idx int) {
 		c.Count("event_triggers_checked", 1)
 	}
 	if sc.role == rig.Acceptor {
-		due := 1
-		if allRef {
-			due = 0
-		}
-		judgeOut("logon-reply", es, res.Outs, nil, false, due)
+		_ = allRef
+		judgeOut("logon-reply", es, res.Outs, nil, false, 1)
 	}
 	logged := res.Logged
 	for k, stp := range sc.steps {
@@ -619,8 +615,9 @@ func runScenario(c *vk.Ctx, sc *scen, idx int) {
 			}
 			es := lg.since(m)
 			ar := judgeIn(name, "1", es)
+			_ = ar
 			due := -1 // not judged
-			if logged && !ar {
+			if logged {
 				due = 1
 			}
 			judgeOut(name, es, res.Outs, nil, false, due)
@@ -632,10 +629,8 @@ func runScenario(c *vk.Ctx, sc *scen, idx int) {
 			}
 			es := lg.since(m)
 			ar := judgeIn(name, "0", es)
-			due := -1
-			if !ar {
-				due = 1
-			}
+			_ = ar
+			due := 1
 			judgeOut(name, es, res.Outs, nil, false, due)
 		case "app":
 			res := rg.Inbound(p.App("a" + strconv.Itoa(k)))
